@@ -208,8 +208,9 @@ countnz(const int_t n, int_t *xprune, int_t *nnzL, int_t *nnzU, GlobalLU_t *Glu)
 void
 fixupL(const int_t n, const int_t *perm_r, GlobalLU_t *Glu)
 {
-    register int_t nsuper, fsupc, nextl, i, j, jstrt;
+    register int_t nsuper, fsupc, nextl, i, j, k, jstrt;
     register int_t *xsup, *xsup_end, *lsub, *xlsub, *xlsub_end;
+    int_t *order;
 
     if ( n <= 1 ) return;
 
@@ -220,11 +221,23 @@ fixupL(const int_t n, const int_t *perm_r, GlobalLU_t *Glu)
     xlsub_end = Glu->xlsub_end;
     nsuper    = Glu->supno[n];
     nextl     = 0;
+
+    /* The subscripts are compacted in place, so the supernodes must be
+       visited in the order in which their subscripts are stored. With
+       more than one thread this need not be the order of the supernode
+       numbers: the two are handed out under different locks. */
+    order = intMalloc(nsuper+1);
+    for (i = 0; i <= nsuper; i++) {
+	for (k = i; k > 0 && xlsub[xsup[order[k-1]]] > xlsub[xsup[i]]; k--)
+	    order[k] = order[k-1];
+	order[k] = i;
+    }
     
     /* 
      * For each supernode ...
      */
-    for (i = 0; i <= nsuper; i++) {
+    for (k = 0; k <= nsuper; k++) {
+	i = order[k];
 	fsupc = xsup[i];
 	jstrt = xlsub[fsupc];
 	xlsub[fsupc] = nextl;
@@ -235,6 +248,7 @@ fixupL(const int_t n, const int_t *perm_r, GlobalLU_t *Glu)
 	xlsub_end[fsupc] = nextl;
     }
     xlsub[n] = nextl;
+    SUPERLU_FREE (order);
 
 #if ( PRNTlevel==1 )
     printf(".. # edges in supernodal graph of L = " IFMT "\n", nextl);
